@@ -94,6 +94,8 @@ def families(tier):
     for label, g in gramgen.frules(tier):
         # a line comment ends at '$': with ignore_case the regexes of the grammar must still be multi-line
         yield label, g, cfgs + ([{"ignore_case": True}] if any(r[0] == "Comment" and "#" in r[2][1] for r in g) else [])
+    for label, g in gramgen.frules_restate():
+        yield label, g, [{}, {"skipws": False}]
     # whitespace sets of several characters including carriage return; insertions then include '\r' and '\r\n'
     for label, g in gramgen.frules("quick", gramgen.WS_SETS):
         if any(r[1] for r in g) and not any(r[0] == "Comment" for r in g):
